@@ -301,6 +301,34 @@ func runC13(c *mon.Ctx) {
 			c.Violation("C13/extension/validate:ok->"+obs.ClassOf(verr).String(), fmt.Sprintf("a claims-set of an extension that makes the client id optional / drops the instance id from the profile (errors FilterError suppresses) fails the generic validation: %v", verr), map[string]any{"sig": sig})
 		}
 	}
+	// (1d) a claims-set of an extension profile whose profile claim holds the BASE
+	// profile's name (or another registered name): wrong profile, not a pass
+	for i := 0; i < c.N(3000, 60000); i++ {
+		p := 1 + g.R.Intn(2)
+		a := g.Valid(p)
+		base, ext := model.P1Name, extprof.ExtP1Name
+		if p == 2 {
+			base, ext = model.P2Name, extprof.ExtP2Name
+		}
+		a.Canon = ext
+		other := []string{base, extprof.ExtP2Name, extprof.ExtP1Name}[g.R.Intn(3)]
+		if other == ext {
+			other = base
+		}
+		a.Profile = model.SP(other)
+		x, err := obs.Build(a)
+		if err != nil {
+			continue
+		}
+		c.Eval()
+		c.Count("extension-with-foreign-profile-claim")
+		c.Sig(fmt.Sprintf("ext-foreign-profile|P%d|%s", p, other))
+		_, perr := x.GetProfile()
+		verr := x.Validate()
+		if obs.ClassOf(perr) != model.WrongProfile || obs.ClassOf(verr) != model.WrongProfile {
+			c.Violation(fmt.Sprintf("C13/P%d/extension-foreign-profile:wrong-profile->%s", p, obs.ClassOf(verr)), fmt.Sprintf("claims of extension %q whose profile claim says %q: GetProfile gives %v, Validate gives %v (wrong-profile class expected)", ext, other, perr, verr), nil)
+		}
+	}
 	// (2) setters
 	type setCase struct {
 		name string
